@@ -851,7 +851,7 @@ func (ck *Check) spreadCollect(fn *ssa.Function, ctx *Ctx, slice ssa.Value, dept
 		over := sp.Args[0].Args[0]
 		okSp = over.Kind == "field" && over.Name == "Instances"
 	}
-	body := And(ctx.BlockPC(l.Header), ctx.edgeCond(l.Header, l.Header.Succs[0]))
+	body := l.bodyPC(ctx)
 	eq, _, _ := Equivalent(ctx.PC(ap.Call), body)
 	if !okSp || !eq {
 		return false, "not every InstanceIds of every fleet.Instances entry is appended unconditionally: " + sp.String()
@@ -1586,7 +1586,7 @@ func (ck *Check) terminateChunking(rule string) {
 							if l == nil || l.Over != ssa.Value(ms) || !l.FullTraversal() || l.Idx == nil || ia.Index != l.Idx {
 								continue
 							}
-							body := And(ctx.BlockPC(l.Header), ctx.edgeCond(l.Header, l.Header.Succs[0]))
+							body := l.bodyPC(ctx)
 							if eq, _, _ := Equivalent(ctx.PC(st), body); !eq {
 								continue
 							}
@@ -1700,7 +1700,7 @@ func (ck *Check) batchIDs(rule, key string, fn *ssa.Function, es effSite, call *
 						stores++
 						l := innermostLoop(idsFn, st.Block())
 						if l != nil && l.Over == B && l.FullTraversal() && l.Idx != nil && ia.Index == l.Idx {
-							body := And(ictx.BlockPC(l.Header), ictx.edgeCond(l.Header, l.Header.Succs[0]))
+							body := l.bodyPC(ictx)
 							if eq, _, _ := Equivalent(ictx.PC(st), body); eq {
 								good++
 							}
@@ -1766,9 +1766,34 @@ func checkC19(ck *Check) {
 	recv := paramTerm(fn.Params[0])
 	nodes := paramTerm(fn.Params[1])
 	var site *Site
+	// the terminate call sits in DeleteNodes, or in a per-node executor DeleteNodes calls exactly once
+	// (in its loop) and nobody else calls: xfn / xctx are that frame with its parameters bound, via
+	// the call in DeleteNodes
+	xfn, xctx := fn, ctx
+	var via *ssa.Call
 	for i := range a.W {
 		if a.W[i].Class == "W-ASG-TERM" {
 			if a.W[i].Fn != fn {
+				x := a.W[i].Fn
+				cs := ck.P.callers[x]
+				sites := callsTo(fn, x)
+				taken := false
+				for _, g := range ck.P.addressTaken() {
+					if g == x {
+						taken = true
+					}
+				}
+				if c, isCall := firstCall(sites); len(cs) == 1 && cs[0] == fn && len(sites) == 1 && isCall && !taken && via == nil {
+					args := make([]*Term, len(c.Common().Args))
+					for j, av := range c.Common().Args {
+						args[j] = ctx.Term(av)
+					}
+					xfn, via = x, c
+					xctx = ctx.child(x, c, args)
+					xctx.depth = 0
+					site = &a.W[i]
+					continue
+				}
 				ck.fail("C19.R1", ck.P.siteKey(a.W[i].Call), ck.P.instrPos(a.W[i].Call), funcID(a.W[i].Fn), "TerminateInstanceInAutoScalingGroup is issued only by DeleteNodes", "", "")
 				continue
 			}
@@ -1781,7 +1806,12 @@ func checkC19(ck *Check) {
 	}
 	call := site.Call.(*ssa.Call)
 	key := ck.P.siteKey(call)
-	pc := ctx.PC(call)
+	pc := xctx.PC(call)
+	loopAt := call
+	if via != nil {
+		pc = And(ctx.PC(via), pc)
+		loopAt = via
+	}
 	minT := &Term{Kind: "call", Name: funcID(a.AwsMinSize), Fn: a.AwsMinSize, Obj: a.AwsMinSize.Object(), Args: []*Term{recv}, Typ: types.Typ[types.Int64]}
 	// candidates for TargetSize() evaluated before the loop
 	var tsCands []*Term
@@ -1822,8 +1852,8 @@ func checkC19(ck *Check) {
 		return LinFact{A: &Term{Kind: "binop", Name: "+", Args: []*Term{minT, lenOf("len", nodes)}}, B: ts, K: 0, Text: "MinSize + len(nodes) ≤ TargetSize"}
 	})
 	// one terminate per listed node
-	loop := innermostLoop(fn, call.Block())
-	okLoop := loop != nil && loop.IdxPhi != nil && ctx.Term(loop.Over).Key() == nodes.Key()
+	loop := innermostLoop(fn, loopAt.Block())
+	okLoop := loop != nil && loop.IdxPhi != nil && ctx.Term(loop.Over).Key() == nodes.Key() && (via == nil || innermostLoop(xfn, call.Block()) == nil)
 	ck.cond(okLoop, "C19.R1", key+"/once-per-node", ck.P.instrPos(call), funcID(fn), "the terminate call sits directly in the range loop over the given nodes (≤ 1 per node)", "", "more terminations than nodes (nested loop) or nodes from another list")
 	if !okLoop {
 		return
@@ -1841,13 +1871,17 @@ func checkC19(ck *Check) {
 			_ = s
 		}
 	}
-	for _, b := range fn.Blocks {
+	if via != nil {
+		// the executor's verdict is DeleteNodes' verdict
+		ck.returnsCallUnchanged("C19.R2", fn, via, 0)
+	}
+	for _, b := range xfn.Blocks {
 		r, ok := b.Instrs[len(b.Instrs)-1].(*ssa.Return)
 		if !ok {
 			continue
 		}
-		if imp, _, _ := Entails(ctx.BlockPC(b), Not(belongs)); imp {
-			if sat, _ := Satisfiable(ctx.BlockPC(b)); !sat {
+		if imp, _, _ := Entails(xctx.BlockPC(b), Not(belongs)); imp {
+			if sat, _ := Satisfiable(xctx.BlockPC(b)); !sat {
 				continue
 			}
 			mi, isMI := r.Results[0].(*ssa.MakeInterface)
@@ -1855,12 +1889,12 @@ func checkC19(ck *Check) {
 			if okT {
 				foundNG = true
 			}
-			ck.cond(okT, "C19.R2", fmt.Sprintf("%s/return@block%d/not-in-group", funcID(fn), b.Index), ck.P.instrPos(r), funcID(fn), "a non-member node makes DeleteNodes return *cloudprovider.NodeNotInNodeGroup", r.Results[0].String(), "a foreign node is skipped or reported with a generic error, so escalator continues")
+			ck.cond(okT, "C19.R2", fmt.Sprintf("%s/return@block%d/not-in-group", funcID(xfn), b.Index), ck.P.instrPos(r), funcID(xfn), "a non-member node makes DeleteNodes return *cloudprovider.NodeNotInNodeGroup", r.Results[0].String(), "a foreign node is skipped or reported with a generic error, so escalator continues")
 		}
 	}
 	ck.cond(foundNG, "C19.R2", funcID(fn)+"/not-in-group-exit", "", funcID(fn), "there is a return under ¬Belongs(node)", "", "non-members are not rejected")
 	// R3 right instance, with decrement
-	flds := ck.literalFields(ctx, call.Common().Args[0])
+	flds := ck.literalFields(xctx, call.Common().Args[0])
 	dec := flds["ShouldDecrementDesiredCapacity"]
 	ck.cond(isAwsHelper(dec, "Bool") && dec.Args[0].Name == "true", "C19.R3", key+"/decrement", ck.P.instrPos(call), funcID(fn), "ShouldDecrementDesiredCapacity ← Bool(true)", fmt.Sprint(dec), "the ASG replaces the terminated instance")
 	iid := flds["InstanceId"]
@@ -1869,7 +1903,7 @@ func checkC19(ck *Check) {
 	if iidV := literalFieldValues(call.Common().Args[0])["InstanceId"]; iid != nil && iidV != nil {
 		// the defining cases of the id: the edges of a φ fed by the search loop, or the return
 		// sites of a search helper (parameters bound to this call's arguments)
-		cases := ck.valueCases(ctx, FTrue, iidV, 0)
+		cases := ck.valueCases(xctx, FTrue, iidV, 0)
 		if len(cases) > 1 {
 			okID = true
 			nonNil := 0
@@ -1892,12 +1926,12 @@ func checkC19(ck *Check) {
 				if !okE && et.Kind == "field" && et.Name == "InstanceId" && et.Args[0].Kind == "index" && len(et.Args[0].Args) == 2 {
 					list, ix := et.Args[0].Args[0], et.Args[0].Args[1]
 					if list.Kind == "field" && list.Name == "Instances" && ix.Kind == "call" && strings.HasPrefix(ix.Name, "slices.IndexFunc") && len(ix.Args) == 2 && ix.Args[0].Key() == list.Key() {
-						if mc := closureOfTerm(fn, ix.Args[1]); mc != nil {
+						if mc := closureOfTerm(xfn, ix.Args[1]); mc != nil {
 							probe := &Term{Kind: "elem", Args: []*Term{list}, ID: "probe"}
 							want := cmpFormula(token.EQL, ck.nodeField(node, "Spec", "ProviderID"), &Term{Kind: "call", Name: funcID(a.AwsInstToProv), Fn: a.AwsInstToProv, Obj: a.AwsInstToProv.Object(), Args: []*Term{probe}})
-							if got := closureResult(ctx, mc, []*Term{probe}); got != nil {
+							if got := closureResult(xctx, mc, []*Term{probe}); got != nil {
 								if eq, _, _ := Equivalent(got, want); eq {
-									okE2, _, err := ctx.EntailsLinear(vc.guard, []LinFact{{A: zeroTerm(types.Typ[types.Int]), B: ix, K: 0, Text: "0 ≤ position"}})
+									okE2, _, err := xctx.EntailsLinear(vc.guard, []LinFact{{A: zeroTerm(types.Typ[types.Int]), B: ix, K: 0, Text: "0 ≤ position"}})
 									if err == nil && okE2 {
 										continue // the candidate is the element the search matched
 									}
@@ -1979,7 +2013,10 @@ func checkC19(ck *Check) {
 	ck.cacheTypestate("C19.R1")
 	// R7 a refused termination stops the request and is reported: DeleteNodes' nil result is what
 	// the delete step (R5) takes as "the cloud accepted the whole batch"
-	ck.failStops("C19.R7", key+"/failure-stops", fn, call, "W-ASG-TERM", "a terminate call the cloud refused")
+	ck.failStops("C19.R7", key+"/failure-stops", xfn, call, "W-ASG-TERM", "a terminate call the cloud refused")
+	if via != nil {
+		ck.failStops("C19.R7", ck.P.siteKey(via)+"/failure-stops", fn, via, "W-ASG-TERM", "a per-node termination that failed")
+	}
 	// R6 propagation
 	ck.notInGroupPropagation("C19.R6")
 	ck.fatalErrorCreation("C19.R6")
@@ -2318,7 +2355,7 @@ func (ck *Check) fatalErrorCreation(rule string) {
 						fresh = ck.alwaysNonNil(mi.X, 0)
 					}
 				}
-				okv := fresh && fn == a.AwsDelete
+				okv := fresh && ck.ownedBy(fn, a.AwsDelete, 0)
 				ck.cond(okv, rule, fmt.Sprintf("%s/not-in-group-creation#%d", funcID(fn), n), ck.P.instrPos(mi), funcID(fn), "a *NodeNotInNodeGroup error is created only by the AWS membership test, from a fresh non-nil value", mi.X.String(),
 					"a possibly-nil *NodeNotInNodeGroup is converted to an error: the interface is non-nil even when the pointer is nil, so ordinary errors are treated as the fatal not-in-group condition (or vice versa)")
 			}
@@ -2617,7 +2654,7 @@ func (ck *Check) wrapperFaithful(rule string, es effSite) {
 func (ck *Check) mapCollect(fn *ssa.Function, ctx *Ctx, slice ssa.Value) (*Term, *Term, bool) {
 	pr := sliceProv(slice)
 	uncond := func(l *Loop, in ssa.Instruction) bool {
-		body := And(ctx.BlockPC(l.Header), ctx.edgeCond(l.Header, l.Header.Succs[0]))
+		body := l.bodyPC(ctx)
 		eq, _, _ := Equivalent(ctx.PC(in), body)
 		return eq
 	}
@@ -3516,4 +3553,13 @@ func (ck *Check) attachStepSplit(chunkFn *ssa.Function, cl *chunkLoop) *ssa.Func
 		}
 	}
 	return driver
+}
+
+// firstCall: the only element of sites as an ordinary call.
+func firstCall(sites []ssa.CallInstruction) (*ssa.Call, bool) {
+	if len(sites) != 1 {
+		return nil, false
+	}
+	c, ok := sites[0].(*ssa.Call)
+	return c, ok
 }
